@@ -9,11 +9,12 @@ use crate::nd;
 
 pub const MAXN: usize = 5;
 
-/// Title number t is a concrete one-word text: 0 "a", 1 "b", 2 "ab", 3 "ba", 4 "" (no word).
+/// Title number t is a concrete one-word text: 0 "a", 1 "b", 2 "ab", 3 "ba", 4 "" (no word),
+/// 5 "B" (original upper case, normalised "b").
 pub fn title(t: u8) -> TextOwn {
     let chars: Vec<char> = match t {
         0 => vec!['a'],
-        1 => vec!['b'],
+        1 | 5 => vec!['b'],
         2 => vec!['a', 'b'],
         3 => vec!['b', 'a'],
         _ => Vec::with_capacity(1),
@@ -24,12 +25,13 @@ pub fn title(t: u8) -> TextOwn {
     let mut classes = Vec::with_capacity(2);
     let mut i = 0;
     while i < n { classes.push(CharClass::Any); i += 1; }
-    TextOwn { words, source: chars.clone(), chars, classes }
+    let source = if t == 5 { vec!['B'] } else { chars.clone() };
+    TextOwn { words, source, chars, classes }
 }
 
 fn title_key(t: u8) -> u32 {
     // code-point order of the normalised titles: "" < "a" < "ab" < "b" < "ba"
-    match t { 4 => 0, 0 => 1, 2 => 2, 1 => 3, _ => 4 }
+    match t { 4 => 0, 0 => 1, 2 => 2, 1 | 5 => 3, _ => 4 }
 }
 
 #[derive(Clone, Copy)]
@@ -163,7 +165,7 @@ pub fn history_query<const O1: u8, const O2: u8, const O3: u8, const O4: u8, con
 /// 31/32 lookup for "a"/"b"; 40 change markers.
 fn apply(op: u8, live: &mut Store, sh: &mut Shadow) {
     match op {
-        0..=4 => {
+        0..=5 => {
             let r = any_rec(op);
             live.add(Record { ix: 0, id: r.id, title: title(r.t), rating: r.rating });
             sh.recs[sh.n] = r;
@@ -239,6 +241,44 @@ pub fn top(titles: &[u8], limit: usize) {
     std::mem::forget(live); std::mem::forget(got);
 }
 
+/// End to end `Store::search` on CONCRETE titles with SYMBOLIC ratings / ids: the one place
+/// where the 15-line pipeline (candidates -> score -> filter -> limit_sort -> highlight) runs.
+/// Records: the given titles; query: title number QT as a one-word finished query.
+pub fn search_case(titles: &[u8], qt: u8, limit: usize) {
+    let n = titles.len();
+    let mut live = new_store();
+    live.limit = limit;
+    let mut recs = [Rec { t: 0, id: 0, rating: 0 }; MAXN];
+    let mut i = 0;
+    while i < n {
+        recs[i] = any_rec(titles[i]);
+        live.add(Record { ix: 0, id: recs[i].id, title: title(recs[i].t), rating: recs[i].rating });
+        i += 1;
+    }
+    let q = title(qt);
+    let got = live.search(&q.to_ref());
+    // every record whose title equals the query word is a hit on its own; titles that differ in
+    // the first letter are not (one-letter / two-letter words: no fuzzy match possible)
+    let mut expect = 0;
+    let mut i = 0;
+    while i < n { if titles[i] == qt { expect += 1; } i += 1; }
+    let mut hits_equal = 0;
+    let mut k = 0;
+    while k < got.len() {
+        let mut found = MAXN;
+        let mut i = 0;
+        while i < n { if recs[i].id == got[k].id { found = i; } i += 1; }
+        assert!(found < n, "C02: a hit carries an id that was never added");
+        if titles[found] == qt { hits_equal += 1; }
+        k += 1;
+    }
+    assert!(got.len() <= limit, "C06: more hits than the limit");
+    let want = if limit < expect { limit } else { expect };
+    assert!(hits_equal == want || got.len() == limit, "C06/C13: a record whose title is the query is missing although the limit is not reached");
+    crate::witness!(got.len() >= 1, "a hit is reachable");
+    std::mem::forget(live); std::mem::forget(got); std::mem::forget(q);
+}
+
 macro_rules! cases {
     ($($name:ident = $body:expr;)*) => {
         $(
@@ -259,6 +299,8 @@ cases! {
     st_top_5_l2 = top(&[3, 1, 2, 0, 1], 2);
     st_top_ee_l1 = top(&[4, 4], 1); st_top_e_l1 = top(&[4], 1); st_top_aa_l1 = top(&[0, 0], 1);
     st_h_e_top_e = history::<4, 30, 4, 255, 255>();
+    st_search_a_qa_l1 = search_case(&[0], 0, 1); st_search_ab_qa_l2 = search_case(&[0, 1], 0, 2); st_search_aa_qa_l1 = search_case(&[0, 0], 0, 1);
+    st_search_aa_qa_l2 = search_case(&[0, 0], 0, 2);
     // C10 histories (op codes in `apply`)
     st_h_add = history::<0, 255, 255, 255, 255>();
     st_h_add_add = history::<0, 1, 255, 255, 255>();
@@ -285,6 +327,7 @@ cases! {
     st_h_add_clear_clear_add = history::<0, 10, 10, 1, 255>();
     st_h_add_clear_top_add = history::<0, 10, 30, 1, 255>();
     st_h_e_add_top = history::<4, 0, 30, 255, 255>();
+    st_top_Ba_l1 = top(&[5, 0], 1); st_top_aB_l1 = top(&[0, 5], 1); st_top_Bab_l2 = top(&[5, 0, 1], 2);
     // slim variants
     st_ht_add = history_top::<0, 255, 255, 255, 255>(); st_ht_add_add = history_top::<0, 1, 255, 255, 255>();
     st_ht_add_top_add = history_top::<0, 30, 1, 255, 255>(); st_ht_top_add = history_top::<30, 0, 255, 255, 255>();
@@ -295,4 +338,7 @@ cases! {
     st_hq_add_clear_add_qa = history_query::<0, 10, 1, 255, 0>(); st_hq_add_clear_qa = history_query::<0, 10, 255, 255, 0>();
     st_hq_add_qa_add_qa = history_query::<0, 31, 0, 255, 0>(); st_hq_add_clear_add_qb = history_query::<0, 10, 1, 255, 1>();
     st_hq_ab_ba_qa = history_query::<2, 3, 255, 255, 0>();
+    st_hq_add_qa_adde_qb = history_query::<0, 31, 4, 255, 1>();
+    st_hq_add_qa_addb_qb = history_query::<0, 31, 1, 255, 1>(); st_hq_addb_qb_add_qa = history_query::<1, 32, 0, 255, 0>();
+    st_ht_l1_add_top_add = history_top::<21, 0, 30, 1, 255>(); st_ht_l1_addb_top_add = history_top::<21, 1, 30, 0, 255>(); st_ht_l2_add_add_top_add = history_top::<22, 0, 1, 30, 0>();
 }
